@@ -37,11 +37,16 @@ type Cone struct {
 	Mask  Eff
 	Funcs map[*ssa.Function]bool
 	Sites []ConeSite
+	Skip  func(fn *ssa.Function) bool // functions not to descend into (nested operations)
 	seen  map[*ssa.Function]bool
 }
 
 func WalkCone(w *World, ef *Effects, entry *ssa.Function, graph func(*ssa.Function) *Graph, mask Eff) *Cone {
-	c := &Cone{W: w, Ef: ef, Graph: graph, Mask: mask, Funcs: map[*ssa.Function]bool{}, seen: map[*ssa.Function]bool{}}
+	return WalkConeSkip(w, ef, entry, graph, mask, nil)
+}
+
+func WalkConeSkip(w *World, ef *Effects, entry *ssa.Function, graph func(*ssa.Function) *Graph, mask Eff, skip func(*ssa.Function) bool) *Cone {
+	c := &Cone{W: w, Ef: ef, Graph: graph, Mask: mask, Funcs: map[*ssa.Function]bool{}, seen: map[*ssa.Function]bool{}, Skip: skip}
 	c.walk(entry, nil)
 	return c
 }
@@ -49,6 +54,9 @@ func WalkCone(w *World, ef *Effects, entry *ssa.Function, graph func(*ssa.Functi
 func (c *Cone) walk(fn *ssa.Function, chain []*ssa.Function) {
 	fn = origin(fn)
 	if c.seen[fn] || len(fn.Blocks) == 0 {
+		return
+	}
+	if c.Skip != nil && len(chain) > 0 && c.Skip(fn) {
 		return
 	}
 	c.seen[fn] = true
